@@ -2308,23 +2308,28 @@ def c14(tier, replay=None):
     report = Report('C14', tier)
     # the design: with sorted set iteration the lowering is a function; without it
     # the multi-entry sets are exactly where two lowerings can differ
-    for sorted_iter, isolated, expect in (('TRUE', 'TRUE', True), ('FALSE', 'TRUE', False),
-                                          ('TRUE', 'FALSE', False)):
-        cfg = write_cfg('Preview_%s_%s.cfg' % (sorted_iter, isolated),
+    for sorted_iter, isolated, perbatch, expect in (('TRUE', 'TRUE', 'TRUE', True), ('FALSE', 'TRUE', 'TRUE', False),
+                                                    ('TRUE', 'FALSE', 'TRUE', False), ('TRUE', 'TRUE', 'FALSE', False)):
+        cfg = write_cfg('Preview_%s_%s_%s.cfg' % (sorted_iter, isolated, perbatch),
                         'SPECIFICATION Spec\nCONSTANTS\n  SortedIteration = %s\n  CloneIsolated = %s\n'
+                        '  PreviewPerBatch = %s\n'
                         'INVARIANT PreviewEqualsExecution\nINVARIANT LoweringDeterministic\n'
-                        'INVARIANT NondeterminismOnlyFromSets\n' % (sorted_iter, isolated))
+                        'INVARIANT NondeterminismOnlyFromSets\n' % (sorted_iter, isolated, perbatch))
         res = run_tlc('Preview', cfg, workers=4, timeout=300, allow_violation=not expect)
         if expect:
             require_ok(res, 'Preview (as repaired)')
         elif not res.invariant_violated:
-            machinery_failure('Preview.tla without sorted iteration / clone isolation should fail')
-        report.add_tlc('Preview SortedIteration=%s CloneIsolated=%s' % (sorted_iter, isolated), res.stats())
+            machinery_failure('Preview.tla without sorted iteration / clone isolation / per-batch preview should fail')
+        report.add_tlc('Preview SortedIteration=%s CloneIsolated=%s PreviewPerBatch=%s'
+                       % (sorted_iter, isolated, perbatch), res.stats())
     seeds = ['0', '1', '2', '3'] if tier == 'quick' else ['0', '1', '2', '3', '4', '5', '7', '11']
     modes = ('fresh',) if tier == 'quick' else ('fresh', 'stepwise')
     scs = P.scenarios(tier)
     with ThreadPoolExecutor(16) as ex:
         all_obs = list(ex.map(lambda sc: P.run_scenario(sc, seeds, modes), scs))
+        split_obs = list(ex.map(lambda i: P.run_split_scenario(i, seeds), range(len(P.SPLIT_CONFIGS))))
+    scs = list(scs) + [('split:%d' % i,) for i in range(len(P.SPLIT_CONFIGS))]
+    all_obs = all_obs + split_obs
     nontrivial = set()
     hint_ok = 0
     for sc, obs_list in zip(scs, all_obs):
@@ -2398,7 +2403,8 @@ def c14(tier, replay=None):
         'by TLC with sorted iteration (holds) and without (must fail: the hazard is real). %d pending '
         'upgrades (set family: unique_together / index_together changes with 2-4 entries, the '
         'HasMultiEntrySet hazard, with and without field additions; chain family: two apps with model '
-        'groups) x start modes %s x PYTHONHASHSEED %s: `evolve --sql`, `evolve --execute`, '
+        'groups; rename-then-index family; split family: an app\'s pending evolutions spread over several '
+        'batches around another app\'s migration) x start modes %s x PYTHONHASHSEED %s: `evolve --sql`, `evolve --execute`, '
         '`evolve --hint` and `evolve --hint --sql` each in a fresh interpreter on copies of the same '
         'database; statements executed inside applying/applied_evolution are rendered with the documented '
         'substitution rule and compared with the preview, and all four outputs are compared across '
